@@ -176,6 +176,10 @@ impl<T, Ptr: PointerFamily> MetaSlotMap<T, Ptr> {
 
     pub(crate) unsafe fn initialize_data_structures(&mut self) {
         let capacity = self.capacity_impl();
+        if capacity == 0 {
+            // an empty free list, otherwise key 0 would be announced and handed out
+            self.idx_to_data_free_list_head = INVALID;
+        }
         for n in 0..capacity {
             unsafe {
                 self.idx_to_data.push_impl(INVALID);
